@@ -1008,8 +1008,10 @@ std::ostream& expression_t::print_bound_type(std::ostream& os, expression_t e) c
         if (e.get_value() == 0) {
             os << "#";
         }
-    } else {
+    } else if (e.get_kind() == IDENTIFIER || e.get_kind() == DOT || e.get_kind() == ARRAY) {
         e.print(os, false);
+    } else {  // `c ? x : y<=10` would read the bound into the expression
+        e.print(os << '(', false) << ')';
     }
     os << "<=";
     return os;
@@ -1593,7 +1595,8 @@ std::ostream& expression_t::print(std::ostream& os, bool old) const
         get(2).print(os, old);
         break;
     case SAVE_STRAT:
-        os << "saveStrategy(" << std::quoted(get(0).get_string_value()) << ", " << get(1).get_string_value() << ')';
+        // (the file is any expression of type string: a literal, which prints quoted, or a constant)
+        get(0).print(os << "saveStrategy(", old) << ", " << get(1).get_string_value() << ')';
         break;
     case LOAD_STRAT:
         os << "loadStrategy";
